@@ -440,6 +440,7 @@ def make_obj(case, path, built):
 def with_clean_cache(f):
     """run f() with DBusInterface.knownInterfaces emptied, restore the previous content afterwards"""
     from txdbus import interface as I
+    from txdbus import objects  # noqa: F401 - its import registers org.freedesktop.DBus.Properties; do it before clearing
     saved = dict(I.DBusInterface.knownInterfaces)
     I.DBusInterface.knownInterfaces.clear()
     try:
@@ -556,8 +557,9 @@ def judge_doc(ctx, case, obs):
             if r is not k:
                 ctx.violation('known-not-reused', 'a locally known interface was not reused although replacement '
                               'was not requested', inp, observed=show_iface(r), expected='the cached object')
-            idx = [i for i, o in enumerate(known_objs) if o is k][0]
-            if obs['known_after'][idx] != obs['known_before'][idx]:
+            idx = [i for i, o in enumerate(known_objs) if o is k]
+            idx = idx[0] if idx else None
+            if idx is not None and obs['known_after'][idx] != obs['known_before'][idx]:
                 ctx.violation('known-mutated', 'the reused cached interface was modified by the parse', inp,
                               observed=obs['known_after'][idx], expected=obs['known_before'][idx])
             if obs['cache_after'].get(d.name) is not k:
